@@ -311,6 +311,11 @@ func decryptASN1(priv *PrivateKey, ciphertext []byte) ([]byte, error) {
 	if err != nil {
 		return nil, ErrDecryption
 	}
+	// B1: C1 must be a point of the curve (ScalarMult of the standard library curves panics otherwise,
+	// generic curves would compute on another curve)
+	if x1.Sign() < 0 || y1.Sign() < 0 || !priv.Curve.IsOnCurve(x1, y1) {
+		return nil, ErrDecryption
+	}
 	return rawDecrypt(priv, x1, y1, c2, c3)
 }
 
@@ -352,6 +357,9 @@ func decryptLegacy(priv *PrivateKey, ciphertext []byte, opts *DecrypterOpts) ([]
 	x1, y1, c3Start, err := bytesToPoint(curve, ciphertext)
 	if err != nil {
 		return nil, ErrDecryption
+	}
+	if ciphertextLen < c3Start+sm3.Size {
+		return nil, errCiphertextTooShort
 	}
 
 	//B4, calculate t=KDF(x2||y2, klen)
